@@ -137,6 +137,13 @@ def decimal_model(decl, payload):
     sign = ""
     if text.startswith("-"):
         sign, text = "-", text[1:]
+    # scientific notation: a mantissa written with the separators, then e / E, an optional sign and ASCII digits
+    exponent = ""
+    match = re.fullmatch(r"(?s)(.*?)([eE][+-]?[0-9]+)", text)
+    if match and "e" not in (dec_sep + thou_sep).lower():
+        text, exponent = match.group(1), match.group(2)
+        if abs(int(exponent[1:])) > 60:
+            return None, None  # absurd magnitudes: not judged
     if dec_sep in text:
         integer_part, _, fraction = text.partition(dec_sep)
         if fraction == "":
@@ -156,7 +163,7 @@ def decimal_model(decl, payload):
     if len(groups) > 1 and (not (1 <= len(groups[0]) <= 3) or any(len(g) != 3 for g in groups[1:])):
         return None, None  # malformed grouping: grey zone, not judged
     digits = "".join(groups)
-    value = decimal.Decimal(sign + digits + ("." + fraction if fraction else ""))
+    value = decimal.Decimal(sign + digits + ("." + fraction if fraction else "") + exponent)
     rule = decl.get("rule")
     if rule:
         items = [(None if lo is None else decimal.Decimal(lo), None if hi is None else decimal.Decimal(hi)) for lo, hi, _ in rule["items"]]
